@@ -2,7 +2,8 @@
    The checker run on every document the implementation produces decides EXACTLY the
    property's clauses (a)-(g); (h)/(i) are checked on the serialised text by the harness. *)
 From Coq Require Import List NArith Bool.
-From RPFT Require Import Base.Sexp Base.PyStr Gen.Tables Flow.Flow Flow.Closed Flow.NodeIdCheck Flow.NodeIdCheckFacts.
+From RPFT Require Import Base.Sexp Base.PyStr Base.Result Gen.Tables Flow.Flow Flow.Closed Flow.NodeIdCheck Flow.NodeIdCheckFacts
+     Flow.RowSem Comp.Compile Comp.CompileClosed Comp.CompileDistinct Comp.CompileExamples Comp.CompileExampleFacts.
 Import ListNotations.
 
 Theorem C01_closedb_spec : forall G d, closedb G d = true <-> Closed G d.
@@ -43,3 +44,113 @@ Theorem C01_compile_validation_decided :
   else forall us, compile_flow_validation us = None.
 Proof. exact compile_validation_decided. Qed.
 Print Assumptions C01_compile_validation_decided.
+
+(* ------------------------------------------------------------------------------------------------------------
+   The compiler itself (model Comp/Compile.v: FlowParser._parse_row / add_exit / node groups / blocks / go_to /
+   no_op / merged rows / _compile_flow and the node and router constructors, mirrored as coded and tied to the
+   code by differential execution on generated sheets, harness/comp_corr.py): FOR EVERY LIST OF ROWS of the core
+   vocabulary and every injective uuid supply, a sheet that compiles compiles to a closed flow. *)
+
+(* clauses (b)-(f) hold whatever the node-uuid validation is: every exit leads nowhere or to a node of the same
+   flow, categories and exits are in bijection, cases / default / no-response name categories of their own router,
+   a node without router has exactly one exit *)
+Theorem C01_compile_nodes_closed : forall fresh, (forall a b : nat, fresh a = fresh b -> a = b) ->
+  forall validate name rows f, compile_with fresh validate name rows = Ok f ->
+  forall nd, In nd (f_nodes f) -> NodeClosed f nd.
+Proof. exact compile_nodes_closed. Qed.
+Print Assumptions C01_compile_nodes_closed.
+
+(* with a validation that lets only duplicate-free uuid lists through: all of FlowClosed (a)-(f) *)
+Theorem C01_compile_with_closed : forall fresh, (forall a b : nat, fresh a = fresh b -> a = b) ->
+  forall validate name rows f, (forall us, validate us = None -> NoDup us) ->
+  compile_with fresh validate name rows = Ok f -> FlowClosed f.
+Proof. exact compile_with_closed. Qed.
+Print Assumptions C01_compile_with_closed.
+
+(* the model of the code of this run *)
+Theorem C01_compile_closed : forall fresh, (forall a b : nat, fresh a = fresh b -> a = b) ->
+  forall name rows f, compile_checks_node_uuids = true -> compile fresh name rows = Ok f -> flow_closedb f = true.
+Proof. exact compile_closed. Qed.
+Print Assumptions C01_compile_closed.
+
+(* decided for the code of this run: closed for all sheets with the validation; refuted without it *)
+Theorem C01_compile_closed_decided :
+  if compile_checks_node_uuids
+  then forall fresh, (forall a b : nat, fresh a = fresh b -> a = b) ->
+       forall name rows f, compile fresh name rows = Ok f -> flow_closedb f = true
+  else exists rows f, compile std_fresh ex_name rows = Ok f /\ flow_closedb f = false.
+Proof. exact compile_closed_decided. Qed.
+Print Assumptions C01_compile_closed_decided.
+
+(* (i) the hard-exit sentinel never reaches a compiled flow *)
+Theorem C01_compile_no_sentinel : forall fresh validate name rows f,
+  compile_with fresh validate name rows = Ok f ->
+  forall nd e, In nd (f_nodes f) -> In e (n_exits nd) -> e_dest e <> Some hard_exit_sentinel.
+Proof. exact compile_no_sentinel. Qed.
+Print Assumptions C01_compile_no_sentinel.
+
+(* (g) the identifiers at defining positions (flow, node, action, exit, category, case) of a compiled flow are
+   pairwise distinct - given that no `_nodeId` of the rows is an identifier the supply hands out *)
+Theorem C01_compile_def_ids_distinct : forall fresh, (forall a b : nat, fresh a = fresh b -> a = b) ->
+  forall validate name rows f, (forall us, validate us = None -> NoDup us) ->
+  (forall cr k, In cr rows -> cr_uuid cr <> fresh k) ->
+  compile_with fresh validate name rows = Ok f -> NoDup (flow_def_ids f).
+Proof. exact compile_def_ids_distinct. Qed.
+Print Assumptions C01_compile_def_ids_distinct.
+
+(* all of (a)-(g): the document checker accepts the compiled flow, for every set G of given identifiers that holds
+   the rows' `_nodeId`s and none of the supply's, when the identifiers the run draws are RFC-4122 v4 strings *)
+Theorem C01_compile_doc_closed : forall fresh, (forall a b : nat, fresh a = fresh b -> a = b) ->
+  forall G name rows f,
+  (forall k, k < compile_draws fresh rows -> is_uuid4 (fresh k) = true) -> (forall k, ~ In (fresh k) G) ->
+  (forall cr, In cr rows -> cr_uuid cr <> [] -> In (cr_uuid cr) G) ->
+  compile_checks_node_uuids = true -> compile fresh name rows = Ok f -> closedb G [f] = true.
+Proof. exact compile_doc_closed. Qed.
+Print Assumptions C01_compile_doc_closed.
+
+(* its hypotheses are satisfiable: a supply of version-4 uuid strings, a sheet with two given `_nodeId`s *)
+Example C01_compile_doc_closed_nonvacuous :
+  (forall a b, uuid_fresh a = uuid_fresh b -> a = b)
+  /\ (forall k, k < compile_draws uuid_fresh ex_given -> is_uuid4 (uuid_fresh k) = true)
+  /\ (forall k, ~ In (uuid_fresh k) ex_given_ids)
+  /\ (forall cr, In cr ex_given -> cr_uuid cr <> [] -> In (cr_uuid cr) ex_given_ids)
+  /\ length ex_given_ids = 2
+  /\ exists f, compile uuid_fresh ex_name ex_given = Ok f /\ length (f_nodes f) = 3 /\ closedb ex_given_ids [f] = true.
+Proof. exact compile_doc_closed_example. Qed.
+Print Assumptions C01_compile_doc_closed_nonvacuous.
+
+(* the statement without the validation is false of the faithful model: two router rows with one `_nodeId` *)
+Theorem C01_compile_closed_unvalidated_refuted :
+  exists f, compile_with std_fresh (fun _ => None) ex_name ex_dup_uuid = Ok f /\ flow_closedb f = false.
+Proof. exact compile_ex_dup_unvalidated. Qed.
+Print Assumptions C01_compile_closed_unvalidated_refuted.
+
+Example C01_compile_dup_rejected_nonvacuous :
+  exists u, compile_with std_fresh (first_repeated []) ex_name ex_dup_uuid = Err (EDupNodeUuid u).
+Proof. exact compile_ex_dup_rejected. Qed.
+Print Assumptions C01_compile_dup_rejected_nonvacuous.
+
+(* non-vacuity: sheets with a router and named categories / a go_to cycle / no_op forwarding and a no_op decision /
+   nested blocks with a hard exit / rows merged through node ids and node names / enter-flow, webhook and airtime
+   outcomes / hard and loose exits compile (nodes, routers) and are closed *)
+Example C01_compile_router_nonvacuous : compiles_to ex_router 6 1.
+Proof. exact compile_ex_router. Qed.
+Print Assumptions C01_compile_router_nonvacuous.
+Example C01_compile_goto_cycle_nonvacuous : compiles_to ex_goto_cycle 3 1.
+Proof. exact compile_ex_goto_cycle. Qed.
+Print Assumptions C01_compile_goto_cycle_nonvacuous.
+Example C01_compile_noop_nonvacuous : compiles_to ex_noop 9 2.
+Proof. exact compile_ex_noop. Qed.
+Print Assumptions C01_compile_noop_nonvacuous.
+Example C01_compile_blocks_nonvacuous : compiles_to ex_blocks 8 1.
+Proof. exact compile_ex_blocks. Qed.
+Print Assumptions C01_compile_blocks_nonvacuous.
+Example C01_compile_merged_nonvacuous : compiles_to ex_merged 3 0.
+Proof. exact compile_ex_merged. Qed.
+Print Assumptions C01_compile_merged_nonvacuous.
+Example C01_compile_outcome_nonvacuous : compiles_to ex_outcome 9 3.
+Proof. exact compile_ex_outcome. Qed.
+Print Assumptions C01_compile_outcome_nonvacuous.
+Example C01_compile_exits_nonvacuous : compiles_to ex_exits 3 1.
+Proof. exact compile_ex_exits. Qed.
+Print Assumptions C01_compile_exits_nonvacuous.
